@@ -32,7 +32,7 @@ pub fn hash_cfg() -> impl Strategy<Value = DbCfg> {
 					}
 				}
 			}
-			DbCfg { cols, zero_salt, sync_wal: true, sync_data: true }
+			DbCfg { cols, zero_salt, sync_wal: true, sync_data: true, always_flush: false }
 		},
 	)
 }
@@ -55,7 +55,10 @@ pub fn scenario(max_ops: usize, big: u32) -> impl Strategy<Value = Scenario> {
 }
 
 pub fn bg_scenario() -> impl Strategy<Value = Scenario> {
-	hash_cfg().prop_flat_map(move |cfg| {
+	(hash_cfg(), 0u8..3).prop_flat_map(move |(mut cfg, af)| {
+		// mostly with every log file applied at once, so that the workers really move the data
+		// through all stages while the client keeps committing and reading
+		cfg.always_flush = af > 0;
 		let n = cfg.cols.len();
 		let op = prop_oneof![
 			12 => items(n, 24, 40_000, 12).prop_map(Op::Commit),
